@@ -39,7 +39,7 @@ Proof. decide equality; [apply label_eq_dec|apply Nat.eq_dec]. Defined.
 Definition instr_eq_dec : forall a b : instr, {a = b} + {a <> b}.
 Proof.
   decide equality; try apply variant_eq_dec; try apply name_eq_dec; try apply bop_eq_dec; try apply qual_eq_dec;
-    try apply label_eq_dec; try apply target_eq_dec.
+    try apply label_eq_dec; try apply target_eq_dec; try apply Nat.eq_dec.
 Defined.
 
 Definition ipos_eq_dec : forall a b : ipos, {a = b} + {a <> b}.
@@ -307,6 +307,10 @@ Fixpoint check_stmt (k : nat) (code : list ipos) (pc : nat) (s : stmt) {struct k
                   end
               end
           end
+      | SData p items =>
+          if slice_is code pc (data_code p items) then Some (length (data_code p items)) else None
+      | SRead p targets =>
+          if slice_is code pc (read_code p targets) then Some (length (read_code p targets)) else None
       end
   end.
 
@@ -325,18 +329,14 @@ Definition check_block (k : nat) (code : list ipos) : list stmt -> nat -> option
 Definition dims_code (dims : list (name * pos)) : list ipos :=
   flat_map (fun d => [(IAlloc (snd (fst d)), snd d); (IVarPathName (fst d), snd d); (ICopyAToVarPath, snd d)]) dims.
 
-(** what the declarations leave in the variable store, and the store the reference semantics start from *)
-Definition dims_env_m (dims : list (name * pos)) (e : env) : env :=
-  fold_left (fun e d => assign (touch e (fst d)) (fst d) (default_of (snd (fst d)))) dims e.
-Definition init_env (dims : list (name * pos)) : env := map (fun d => (fst d, default_of (snd (fst d)))) dims.
-
-Definition env_eq_dec : forall a b : env, {a = b} + {a <> b}.
-Proof. apply list_eq_dec. decide equality; [apply variant_eq_dec|apply name_eq_dec]. Defined.
-
+(** DATA statements first, then the declarations, then the other statements, then HALT *)
 Definition check_program (k : nat) (dims : list (name * pos)) (p : program) (code : list ipos) : bool :=
-  slice_is code 0 (dims_code dims) &&
-  (if env_eq_dec (dims_env_m dims []) (init_env dims) then true else false) &&
-  match check_block k code p (length (dims_code dims)) with
-  | Some len => instr_at code (length (dims_code dims) + len) (IHalt, max_pos)
+  match check_block k code (filter is_data p) 0 with
   | None => false
+  | Some ld =>
+      slice_is code ld (dims_code dims) &&
+      match check_block k code (filter (fun s => negb (is_data s)) p) (ld + length (dims_code dims)) with
+      | Some len => instr_at code (ld + length (dims_code dims) + len) (IHalt, max_pos)
+      | None => false
+      end
   end.
